@@ -383,7 +383,7 @@ def finish(run, level="exploration"):
             print("INCONCLUSIVE property=%s reason=monitor observed too little (evaluations=%d distinct=%d)"
                   % (run.pid, run.evaluations, run.distinct))
             rc = 2
-    if REPO == "/repo" or os.environ.get("VERIF_WRITE_EVIDENCE"):
+    if (REPO == "/repo" and not os.environ.get("VERIF_NO_EVIDENCE")) or os.environ.get("VERIF_WRITE_EVIDENCE"):
         os.makedirs(os.path.join(VERIF, "evidence"), exist_ok=True)
         with open(os.path.join(VERIF, "evidence", run.pid + ".json"), "w") as fh:
             json.dump(ev, fh, indent=1, ensure_ascii=False)
